@@ -300,6 +300,82 @@ def op_to_coq(op):
     raise ValueError(k)
 
 
+# ------------------------------------------------------------ the heap model against REAL main-loop runs
+def eop_to_coq(op):
+    k = op[0]
+    if k == "set":
+        return "ESet %s" % c_list(op[1], c_nat)
+    if k == "repop":
+        return "ERepop %s %s %s" % (c_list(op[1], c_nat), c_list(op[2], c_nat), c_list([c_list(d, c_nat) for d in op[3]]))
+    if k == "stats":
+        return "EStats %s" % c_bool(op[1])
+    if k == "opt":
+        return "EOpt %s" % c_list(op[1], c_nat)
+    if k == "relabel":
+        return "ERelabel %s %s" % (c_list(op[1], c_nat), c_nat(0))
+    raise ValueError(k)
+
+
+def real_run_case(cfg):
+    """run a front end; at every phase boundary compute the signature over the (live) state objects handed on so far and
+    extract the operation sequence (labels, repopulation order / draws / spread ranks, covariance tags) for the model"""
+    from fast_ticc import _verif, cluster_maintenance as cm
+    handles, sigs, ops = [], [], []
+    draws = []
+    tags = {}
+    prev = {"state": None}
+
+    class R:
+        @staticmethod
+        def sample(pop, k):
+            r = random.sample(pop, k)
+            draws.append([int(x) for x in r])
+            return r
+
+    def listener(event, payload):
+        if event not in ("init", "phase"):
+            return
+        st = payload["state"]
+        K = st.arguments.num_clusters
+        if event == "init":
+            ops.append(("set", [int(x) for x in st.point_labels]))
+        else:
+            ph = payload["phase"]
+            if ph == "repopulate":
+                given = prev["state"]
+                labels = [int(x) for x in given.point_labels]
+                sizes = [labels.count(k) for k in range(K)]
+                under = set()
+                for k in range(K):
+                    if sizes[k] < 2:
+                        under.add(k)
+                norms = [float(np.linalg.norm(c.computed_covariance)) for c in given.clusters]
+                ranks = {v: i for i, v in enumerate(sorted(set(norms)))}
+                ops.append(("repop", [ranks[v] for v in norms], list(under), list(draws)))
+                del draws[:]
+            elif ph == "statistics":
+                ops.append(("stats", bool(st.arguments.biased_covariance)))
+            elif ph == "optimise":
+                t = []
+                for c in st.clusters:
+                    key = np.asarray(c.empirical_covariance).tobytes()
+                    t.append(tags.setdefault(key, len(tags)))
+                ops.append(("opt", t))
+            elif ph == "relabel":
+                ops.append(("relabel", [int(x) for x in st.point_labels]))
+        if not any(st is hdl for hdl in handles):
+            handles.append(st)
+        sigs.append(signature(handles[-4:]))
+        prev["state"] = st
+
+    def patches():
+        _verif.add_listener(listener)
+        cm.random = R
+        return [lambda: setattr(cm, "random", random)]
+    r = e2e.traced_run(cfg, extra_patches=patches)
+    return r, ops, sigs
+
+
 # ------------------------------------------------------------ monitors on traced runs
 def inv_holds(st):
     labels = st["labels"]
@@ -384,6 +460,23 @@ def run(ctx):
         _c.member_points = None
         if _c.member_points != [] or _c.size != 0:
             ctx.violation("monitor", "assigning None to member_points does not clear the cluster", {"probe": "member_points=None"})
+        # the heap model replayed on real main-loop executions: same signatures at every phase boundary
+        real_cases = []
+        for j in range(ctx.budget(6, 24)):
+            W = [1, 2][j % 2]; N = 1 + j % 2; K = [3, 5, 4][j % 3]
+            T = 50 + 5 * j
+            cfg = {"N": N, "W": W, "K": K, "beta": [2.0, 30.0, 1e5][j % 3], "lam": (0.11 if j % 4 else np.full((N * W, N * W), 0.11)),
+                   "limit": [3, 4, 2][j % 3], "m": [1, 2, 3][j % 3], "biased": bool(j % 2), "eps": 0, "joint": False,
+                   "lengths": [T], "data_seed": 500 + j + ctx.seed, "rng_seed": 500 + j, "regimes": 2}
+            if j % 5 == 3:
+                cfg["beta"] = np.full(T - W + 1, 4.0)
+            with ctx.guard("traced run for the heap-model replay", {"cfg": {k: (v if not isinstance(v, np.ndarray) else "array") for k, v in cfg.items()}}):
+                r, eops, sigs_r = real_run_case(cfg)
+                ctx.count("real-run")
+                if r["error"] is None or eops:
+                    real_cases.append((cfg, eops, sigs_r, r["error"]))
+                    if any(o[0] == "repop" and o[2] for o in eops):
+                        ctx.mark_nontrivial(("real", j))
         # traced runs: invariant + frame at every phase boundary
         runs = e2e.cached_runs(ctx, e2e.standard_grid(ctx.seed, ctx.thorough), "std")
         e2e.traced_run({"N": 1, "W": 2, "K": 2, "beta": 1.0, "lengths": [30], "limit": 2, "m": 1, "data_seed": 1, "rng_seed": 1, "joint": False})
@@ -428,6 +521,27 @@ def run(ctx):
             ctx.violation("tie", "model evaluation failed for %s" % name, {"correspondence": "tie:State." + name, "log": out[-1500:]}, no_input=True)
             return ctx.finish(RULE)
         model += vals
+    # real runs
+    if real_cases:
+        body = ";\n".join("(%s, %s, %s, %s, %s)" % (c_nat(cfg["K"]), c_nat(cfg["m"]), c_bool(isinstance(cfg["lam"], np.ndarray)),
+                                                  c_bool(isinstance(cfg["beta"], np.ndarray)), c_list([eop_to_coq(o) for o in eops]))
+                          for (cfg, eops, _, _) in real_cases)
+        ok, out = ctx.coq_eval("state_real", "From Coq Require Import List Arith.\nImport ListNotations.\nFrom Ticc Require Import Model.State Corr.RunState.\n"
+                               "Definition cases : list (nat * nat * bool * bool * list eop) := [\n%s].\n"
+                               "Definition answers := Eval vm_compute in (map erun_case cases).\nPrint answers.\n" % body)
+        vals = coqfmt.parse_print_list(out) if ok else None
+        if vals is None or len(vals) != len(real_cases):
+            ctx.violation("tie", "model evaluation failed for the real-run replay", {"correspondence": "tie:State.real-runs", "log": out[-1500:]}, no_input=True)
+        else:
+            for (cfg, eops, sigs_r, err), mh in zip(real_cases, vals):
+                hh = 7
+                for x in sigs_r:
+                    hh = (hh * coqfmt.HMUL + x + 1) % coqfmt.HMOD
+                if hh != mh:
+                    ctx.tie_mismatch("State.real-runs", "the heap model replayed on a real main-loop run disagrees with the objects the run produced "
+                                     "(labels / membership / aliasing / content classes at some phase boundary)",
+                                     {"cfg": {k: (v if not isinstance(v, np.ndarray) else "array") for k, v in cfg.items()}, "ops": [list(o)[:2] for o in eops][:12], "run_error": err})
+                    break
     for c, sigs, mh in zip(cases, impl, model):
         if sigs == -1:
             continue
